@@ -34,6 +34,34 @@ func (c *Ctx) lexRoles() *LexRoles {
 	return lr
 }
 
+// usesNamed: f calls the named function or hands it on as a value (directly, or in a closure it makes).
+func (c *Ctx) usesNamed(f *ssa.Function, full string) bool {
+	if c.callsNamed(f, full) {
+		return true
+	}
+	for _, b := range f.Blocks {
+		for _, in := range b.Instrs {
+			for _, op := range in.Operands(nil) {
+				switch x := (*op).(type) {
+				case *ssa.Function:
+					name := x.String()
+					if x.Pkg != nil && x.Signature.Recv() == nil {
+						name = x.Pkg.Pkg.Path() + "." + x.Name()
+					}
+					if name == full {
+						return true
+					}
+				case *ssa.MakeClosure:
+					if g, ok := x.Fn.(*ssa.Function); ok && g != f && c.callsNamed(g, full) {
+						return true
+					}
+				}
+			}
+		}
+	}
+	return false
+}
+
 func (c *Ctx) callsNamed(f *ssa.Function, full string) bool {
 	for _, b := range f.Blocks {
 		for _, in := range b.Instrs {
@@ -528,13 +556,13 @@ func ruleLEXTOK(c *Ctx, r *Report) {
 					default:
 						r.ok(rule, key, pos, "Val = input[start:pos]; start = pos")
 					}
-				case f == lr.Next:
+				case f == lr.Next || c.reachedOnlyFrom(f, lr.Next, 0):
 					if c.key(typ, nil) == "lex.TEOF" {
 						r.ok(rule, key, pos, "EOF prologue")
 					} else {
 						r.bad(rule, key, pos, "Next may only pre-set the EOF token")
 					}
-				case f == lr.Errorf:
+				case f == lr.Errorf || c.reachedOnlyFrom(f, lr.Errorf, 0):
 					if c.key(typ, nil) == "lex.TErr" {
 						r.ok(rule, key, pos, "error token")
 					} else {
@@ -810,7 +838,53 @@ type cyclePath struct {
 }
 
 func (c *Ctx) cyclePaths(fn *ssa.Function) ([]cyclePath, bool) {
-	paths, complete := c.enumPaths(fn, 5000)
+	return c.cyclePathsOpt(fn, nil)
+}
+
+// lexInl: inlining options for reading the lexer's state functions: helper methods of the lexer (or
+// functions taking the lexer) that return nothing or a next state are read in place — a scanning loop
+// moved into such a helper, or two states merged into one parameterised helper, is then analysed as the
+// code of the state that calls it, with the constant arguments of the call substituted. The rune
+// primitives (advance, backup, emit, token cutting, errorf, Next, Peek), the states themselves and every
+// helper that returns a rune or a token stay calls.
+func (c *Ctx) lexInl(lr *LexRoles, boolToo bool) *InlineOpts {
+	prim := map[*ssa.Function]bool{lr.Advance: true, lr.Backup: true, lr.Emit: true, lr.ToTok: true, lr.Errorf: true, lr.Next: true, lr.Peek: true, lr.LexCtor: true}
+	for _, s := range lr.States {
+		prim[s] = true
+	}
+	takesLexer := func(g *ssa.Function) bool {
+		for _, p := range g.Params {
+			t := p.Type()
+			if pt, ok := t.(*types.Pointer); ok {
+				t = pt.Elem()
+			}
+			if types.Identical(t, lr.Lexer) {
+				return true
+			}
+		}
+		return false
+	}
+	return &InlineOpts{Keep: prim, Pred: func(g *ssa.Function) bool {
+		if prim[g] {
+			return false
+		}
+		rs := g.Signature.Results()
+		if rs.Len() == 1 && isBool(rs.At(0).Type()) {
+			return boolToo && !takesLexer(g)
+		}
+		if !takesLexer(g) {
+			return false
+		}
+		return rs.Len() == 0 || (rs.Len() == 1 && isFuncType(rs.At(0).Type()))
+	}}
+}
+
+func (c *Ctx) lexPaths(lr *LexRoles, fn *ssa.Function, max int) ([]*Path, bool) {
+	return c.enumPathsOpt(fn, max, c.lexInl(lr, false))
+}
+
+func (c *Ctx) cyclePathsOpt(fn *ssa.Function, o *InlineOpts) ([]cyclePath, bool) {
+	paths, complete := c.enumPathsOpt(fn, 5000, o)
 	var out []cyclePath
 	for _, p := range paths {
 		if !p.Cut || p.CutTo == nil {
@@ -854,7 +928,7 @@ func ruleLEXLOOP(c *Ctx, r *Report) {
 	}
 	nCycles := 0
 	for _, s := range lr.States {
-		cps, complete := c.cyclePaths(s)
+		cps, complete := c.cyclePathsOpt(s, c.lexInl(lr, false))
 		if !complete {
 			r.bad(rule, fnName(s)+"|paths", c.pos(s.Pos()), "too many paths")
 			continue
@@ -985,7 +1059,7 @@ func ruleLEXFIRST(c *Ctx, r *Report) {
 	}
 	disp := map[*ssa.Function][]dispatch{}
 	for _, s := range lr.States {
-		paths, _ := c.enumPaths(s, 5000)
+		paths, _ := c.enumPathsOpt(s, 20000, c.lexInl(lr, true))
 		for _, p := range paths {
 			if p.Ret == nil {
 				continue
@@ -1005,7 +1079,7 @@ func ruleLEXFIRST(c *Ctx, r *Report) {
 			continue
 		}
 		// zero-depth emit: enumerate the state's paths reaching this emit with advances == backups
-		paths, _ := c.enumPaths(es.fn, 5000)
+		paths, _ := c.enumPathsOpt(es.fn, 20000, c.lexInl(lr, true))
 		var empties []*Path
 		for _, p := range paths {
 			reaches := false
@@ -1073,7 +1147,7 @@ func ruleWSSET(c *Ctx, r *Report) {
 		return
 	}
 	rk := fnName(lr.Advance) + "($0)"
-	cps, _ := c.cyclePaths(lr.Initial)
+	cps, _ := c.cyclePathsOpt(lr.Initial, c.lexInl(lr, false))
 	skipped := map[int64]bool{}
 	for _, cp := range cps {
 		one := false
@@ -1156,7 +1230,7 @@ func ruleWSSET(c *Ctx, r *Report) {
 		if c.emitsConst(lr, s, "lex.TQuoted") || c.emitsConst(lr, s, "lex.TRegexp") {
 			continue
 		}
-		cps, _ := c.cyclePaths(s)
+		cps, _ := c.cyclePathsOpt(s, c.lexInl(lr, false))
 		for _, w := range []int64{' ', '\t', '\n', '\r'} {
 			for i, cp := range cps {
 				infeasible := false
@@ -1180,17 +1254,25 @@ func ruleWSSET(c *Ctx, r *Report) {
 }
 
 func (c *Ctx) emitsConst(lr *LexRoles, s *ssa.Function, typ string) bool {
-	for _, b := range s.Blocks {
-		for _, in := range b.Instrs {
-			if call, ok := in.(ssa.CallInstruction); ok {
-				sc := staticCallee(call)
-				if (sc == lr.Emit || sc == lr.ToTok) && len(call.Common().Args) >= 2 && c.key(call.Common().Args[1], nil) == typ {
-					return true
+	memo := "emits:" + fnName(s)
+	var set map[string]bool
+	if v, ok := c.roles[memo]; ok {
+		set = v.(map[string]bool)
+	} else {
+		set = map[string]bool{}
+		// path-based, helpers read in place: the token type may be a constant argument of the helper
+		paths, _ := c.lexPaths(lr, s, 5000)
+		for _, p := range paths {
+			for _, pc := range p.Calls {
+				sc := pc.Call.Call.StaticCallee()
+				if (sc == lr.Emit || sc == lr.ToTok) && len(pc.Args) >= 2 {
+					set[pc.Args[1]] = true
 				}
 			}
 		}
+		c.roles[memo] = set
 	}
-	return false
+	return set[typ]
 }
 
 // KW-CASE (C09)
@@ -1234,6 +1316,72 @@ func ruleKWCASE(c *Ctx, r *Report) {
 			r.bad(rule, key, c.instrPos(in), fmt.Sprintf("the %s keyword token type is produced without a case-insensitive comparison of the word with %q (conditions: %s): `%s` would become a plain term", kw, kw, strings.Join(uniq(got), " ∧ "), strings.ToLower(kw)))
 		}
 	}
+	// the keyword table form: the token type is the value found in a package-level map keyed by the
+	// upper-cased word, used under the lookup's found flag
+	kwTables := map[*ssa.Global]bool{}
+	checkMap := func(in ssa.Instruction, v ssa.Value) {
+		ex, ok := c.resolve(v, nil).(*ssa.Extract)
+		if !ok || ex.Index != 0 {
+			return
+		}
+		lk, ok := ex.Tuple.(*ssa.Lookup)
+		if !ok || !lk.CommaOk {
+			return
+		}
+		ld, ok := lk.X.(*ssa.UnOp)
+		if !ok {
+			return
+		}
+		g, ok := ld.X.(*ssa.Global)
+		if !ok || g.Pkg == nil {
+			return
+		}
+		tb := c.readTable(g.Pkg.Pkg.Path(), g.Name())
+		if tb.Err != "" {
+			r.bad(rule, "keyword-table|"+g.Name(), c.instrPos(in), "keyword table cannot be read: "+tb.Err)
+			return
+		}
+		kwTables[g] = true
+		idxKey := c.key(lk.Index, nil)
+		guarded := false
+		for _, a := range c.atomsAt(in) {
+			if a.Kind == "call" && a.Pos && a.Subj == "haskey:"+c.key(lk.X, nil) && a.Val == idxKey {
+				guarded = true
+			}
+		}
+		norm := strings.Contains(idxKey, "strings.ToUpper(")
+		got := map[string]string{}
+		for _, e := range tb.Entries {
+			if s, ok := constStringVal(e.Key); ok {
+				got[s] = c.key(e.Val, nil)
+			}
+		}
+		for typ, kw := range want {
+			found[typ] = true
+			key := "keyword|" + kw
+			switch {
+			case got[kw] != typ:
+				r.bad(rule, key, c.instrPos(in), fmt.Sprintf("the keyword table maps %q to %q; it must be %s", kw, got[kw], typ))
+			case !norm:
+				r.bad(rule, key, c.instrPos(in), fmt.Sprintf("the keyword table is consulted with %s, not with the upper-cased word: `%s` would become a plain term", idxKey, strings.ToLower(kw)))
+			case !guarded:
+				r.bad(rule, key, c.instrPos(in), "the value looked up in the keyword table is used without its found flag: a word that is no keyword gets the zero token type")
+			default:
+				r.ok(rule, key, c.instrPos(in), "keyword table entry, consulted with the upper-cased word under the found flag")
+			}
+		}
+		for k, v := range got {
+			isWant := false
+			for typ, kw := range want {
+				if k == kw && v == typ {
+					isWant = true
+				}
+			}
+			if !isWant {
+				r.bad(rule, "keyword-table|extra|"+k, c.instrPos(in), fmt.Sprintf("the keyword table has the entry %q → %s: that word is no longer a plain term", k, v))
+			}
+		}
+	}
 	for _, f := range c.Funcs {
 		if fnPkgPath(f) != pkgLex {
 			continue
@@ -1264,6 +1412,8 @@ func ruleKWCASE(c *Ctx, r *Report) {
 					if (sc == lr.Emit || (lr.ToTok != nil && sc == lr.ToTok)) && len(x.Common().Args) >= 2 {
 						if typ := c.key(x.Common().Args[1], nil); want[typ] != "" {
 							check(in, f, typ, subst)
+						} else {
+							checkMap(in, x.Common().Args[1])
 						}
 					}
 				case *ssa.Return:
@@ -1272,6 +1422,8 @@ func ruleKWCASE(c *Ctx, r *Report) {
 							if typ := c.constName(k); want[typ] != "" {
 								check(in, f, typ, subst)
 							}
+						} else {
+							checkMap(in, x.Results[0])
 						}
 					}
 				}
@@ -1314,6 +1466,13 @@ func ruleKWCASE(c *Ctx, r *Report) {
 				if want[typ] != "" {
 					producesKW = true
 				}
+				if strings.HasPrefix(typ, "@lex.") && strings.HasSuffix(typ, "#0") {
+					for g := range kwTables {
+						if strings.HasPrefix(typ, "@lex."+g.Name()+"[") {
+							producesKW = true
+						}
+					}
+				}
 				if typ == "lex.TLiteral" {
 					lits = append(lits, in)
 				}
@@ -1327,6 +1486,18 @@ func ruleKWCASE(c *Ctx, r *Report) {
 			for _, a := range c.atomsAt(in) {
 				if a.Kind == "cmp" && a.Op == "!=" && strings.HasPrefix(a.Val, `"`) {
 					excluded[strings.Trim(a.Val, `"`)] = true
+				}
+				// a failed lookup of the upper-cased word in the keyword table excludes all its keys
+				if a.Kind == "call" && !a.Pos && strings.HasPrefix(a.Subj, "haskey:@lex.") && strings.Contains(a.Val, "strings.ToUpper(") {
+					for g := range kwTables {
+						if a.Subj == "haskey:@lex."+g.Name() {
+							for _, e := range c.readTable(pkgLex, g.Name()).Entries {
+								if s, ok := constStringVal(e.Key); ok {
+									excluded[s] = true
+								}
+							}
+						}
+					}
 				}
 			}
 			var missing []string
@@ -1363,7 +1534,7 @@ func rulePHRASELOOP(c *Ctx, r *Report) {
 		r.bad(rule, "state", "-", "no lexer state emits TQuoted")
 		return
 	}
-	cps, _ := c.cyclePaths(ph)
+	cps, _ := c.cyclePathsOpt(ph, c.lexInl(lr, false))
 	for i, cp := range cps {
 		adv, bk := c.countCalls(cp.instrs, lr.Advance), c.countCalls(cp.instrs, lr.Backup)
 		key := fmt.Sprintf("%s|cycle%d", fnName(ph), i)
@@ -1375,26 +1546,24 @@ func rulePHRASELOOP(c *Ctx, r *Report) {
 	}
 	r.floor(rule, "phrase loop cycles", len(cps), 2)
 	// exits: paths that leave the loop (reach a return) after at least two advances
-	paths, _ := c.enumPaths(ph, 5000)
+	paths, _ := c.lexPaths(lr, ph, 5000)
 	rk := fnName(lr.Advance) + "($0)"
 	for _, p := range paths {
 		if p.Ret == nil {
 			continue
 		}
 		emitsQ, errs := false, false
-		for _, in := range p.Instrs {
-			if call, ok := in.(ssa.CallInstruction); ok {
-				sc := staticCallee(call)
-				if sc == lr.Emit || sc == lr.ToTok {
-					if len(call.Common().Args) >= 2 && c.key(call.Common().Args[1], nil) == "lex.TQuoted" {
-						emitsQ = true
-					} else {
-						r.bad(rule, fnName(ph)+"|exit|other-token", c.instrPos(in), "the phrase state emits a token other than TQuoted")
-					}
+		for _, pc := range p.Calls {
+			sc := pc.Call.Call.StaticCallee()
+			if sc == lr.Emit || sc == lr.ToTok {
+				if len(pc.Args) >= 2 && pc.Args[1] == "lex.TQuoted" {
+					emitsQ = true
+				} else {
+					r.bad(rule, fnName(ph)+"|exit|other-token", c.instrPos(pc.Call), "the phrase state emits a token other than TQuoted")
 				}
-				if sc == lr.Errorf {
-					errs = true
-				}
+			}
+			if sc == lr.Errorf {
+				errs = true
 			}
 		}
 		key := fnName(ph) + "|exit"
@@ -1498,7 +1667,7 @@ func ruleLEXDISPATCH(c *Ctx, r *Report) {
 		return
 	}
 	rk := fnName(lr.Advance) + "($0)"
-	paths, complete := c.enumPaths(disp, 5000)
+	paths, complete := c.lexPaths(lr, disp, 5000)
 	if !complete {
 		r.bad(rule, "paths", c.pos(disp.Pos()), "too many paths")
 		return
@@ -1657,17 +1826,20 @@ func (c *Ctx) tokArgAt(v ssa.Value, rk string, rv int64) string {
 			}
 		}
 	}
+	exIdx := 0
 	if ex, ok := v.(*ssa.Extract); ok {
 		v = ex.Tuple
+		exIdx = ex.Index
 	}
 	if call, ok := v.(*ssa.Call); ok && call.Call.StaticCallee() != nil && inModule(call.Call.StaticCallee()) && len(call.Call.Args) == 1 {
 		ev := &enumEval{c: c, asg: map[string]int64{"$0": rv}}
 		f := call.Call.StaticCallee()
-		if f.Signature.Results().Len() == 1 {
-			if res, ok := ev.callFn(f, []string{"$0"}); ok {
-				if n, isInt := res.(int64); isInt {
-					return name(n)
-				}
+		if res, ok := ev.callFn(f, []string{"$0"}); ok {
+			if tuple, isT := res.([]any); isT && exIdx < len(tuple) {
+				res = tuple[exIdx]
+			}
+			if n, isInt := res.(int64); isInt {
+				return name(n)
 			}
 		}
 	}
